@@ -5,8 +5,11 @@ go 1.21
 require (
 	0chain.net v0.0.0
 	github.com/0chain/common v1.13.1-0.20240726100134-cbf5bf9beaac
+	github.com/alicebob/miniredis/v2 v2.30.5
 	github.com/anishathalye/porcupine v1.3.0
+	github.com/gomodule/redigo v1.8.9
 	github.com/herumi/bls-go-binary v1.33.0
+	github.com/tinylib/msgp v1.1.6
 	github.com/vmihailenco/msgpack/v5 v5.4.0
 	go.uber.org/zap v1.24.0
 	golang.org/x/crypto v0.21.0
@@ -17,6 +20,7 @@ require (
 	github.com/0chain/errors v1.0.3 // indirect
 	github.com/0chain/gosdk v1.16.0 // indirect
 	github.com/IBM/sarama v1.42.2 // indirect
+	github.com/alicebob/gopher-json v0.0.0-20230218143504-906a9b012302 // indirect
 	github.com/asaskevich/govalidator v0.0.0-20230301143203-a9d515a09cc2 // indirect
 	github.com/aws/aws-sdk-go-v2 v1.22.2 // indirect
 	github.com/aws/aws-sdk-go-v2/config v1.24.0 // indirect
@@ -53,7 +57,6 @@ require (
 	github.com/go-playground/universal-translator v0.18.1 // indirect
 	github.com/go-playground/validator/v10 v10.15.5 // indirect
 	github.com/golang/snappy v0.0.5-0.20220116011046-fa5810519dcb // indirect
-	github.com/gomodule/redigo v1.8.9 // indirect
 	github.com/google/uuid v1.3.0 // indirect
 	github.com/guregu/null v4.0.0+incompatible // indirect
 	github.com/hashicorp/errwrap v1.0.0 // indirect
@@ -102,9 +105,9 @@ require (
 	github.com/spf13/viper v1.16.0 // indirect
 	github.com/stretchr/testify v1.9.0 // indirect
 	github.com/subosito/gotenv v1.4.2 // indirect
-	github.com/tinylib/msgp v1.1.6 // indirect
 	github.com/valyala/gozstd v1.20.1 // indirect
 	github.com/vmihailenco/tagparser/v2 v2.0.0 // indirect
+	github.com/yuin/gopher-lua v1.1.0 // indirect
 	go.mongodb.org/mongo-driver v1.11.3 // indirect
 	go.uber.org/atomic v1.11.0 // indirect
 	go.uber.org/multierr v1.9.0 // indirect
